@@ -379,32 +379,37 @@ func rangeLoopsOf(fn *ssa.Function) []rangeLoop {
 		if !ok || cmp.Op != token.LSS {
 			continue
 		}
-		inc, ok := cmp.X.(*ssa.BinOp)
-		if !ok || inc.Op != token.ADD {
-			continue
-		}
-		ph, ok := inc.X.(*ssa.Phi)
-		if !ok || ph.Block() != b || !isConst(inc.Y, "1") {
-			continue
-		}
-		init := false
-		back := false
-		for _, e := range ph.Edges {
-			if isConst(e, "-1") {
-				init = true
-			}
-			if e == ssa.Value(inc) {
-				back = true
-			}
-		}
 		ln, ok := cmp.Y.(*ssa.Call)
-		if !init || !back || !ok {
+		if !ok {
 			continue
 		}
 		if bi, ok := ln.Call.Value.(*ssa.Builtin); !ok || bi.Name() != "len" {
 			continue
 		}
-		out = append(out, rangeLoop{Hdr: b, Index: inc, Slice: ln.Call.Args[0], Body: b.Succs[0], Done: b.Succs[1]})
+		stepOf := func(ph *ssa.Phi, init string) (ok bool) {
+			hasInit, hasBack := false, false
+			for _, e := range ph.Edges {
+				if isConst(e, init) {
+					hasInit = true
+				} else if inc, isInc := e.(*ssa.BinOp); isInc && inc.Op == token.ADD && inc.X == ssa.Value(ph) && isConst(inc.Y, "1") {
+					hasBack = true
+				} else {
+					return false
+				}
+			}
+			return hasInit && hasBack
+		}
+		// `for i, x := range s`: index φ(-1, i+1), the element visited is i+1
+		if inc, ok := cmp.X.(*ssa.BinOp); ok && inc.Op == token.ADD && isConst(inc.Y, "1") {
+			if ph, ok := inc.X.(*ssa.Phi); ok && ph.Block() == b && stepOf(ph, "-1") {
+				out = append(out, rangeLoop{Hdr: b, Index: inc, Slice: ln.Call.Args[0], Body: b.Succs[0], Done: b.Succs[1]})
+				continue
+			}
+		}
+		// `for i := 0; i < len(s); i++`: index φ(0, i+1), the element visited is i
+		if ph, ok := cmp.X.(*ssa.Phi); ok && ph.Block() == b && stepOf(ph, "0") {
+			out = append(out, rangeLoop{Hdr: b, Index: ph, Slice: ln.Call.Args[0], Body: b.Succs[0], Done: b.Succs[1]})
+		}
 	}
 	return out
 }
@@ -445,4 +450,51 @@ func (r rangeLoop) Whole() bool {
 func isModuleCall(ci ssa.CallInstruction) bool {
 	sc := staticCallee(ci.Common())
 	return sc != nil && isModuleFunc(sc)
+}
+
+func blockReaches(from, to *ssa.BasicBlock) bool {
+	seen := map[*ssa.BasicBlock]bool{}
+	var walk func(b *ssa.BasicBlock) bool
+	walk = func(b *ssa.BasicBlock) bool {
+		for _, s := range b.Succs {
+			if s == to {
+				return true
+			}
+			if !seen[s] {
+				seen[s] = true
+				if walk(s) {
+					return true
+				}
+			}
+		}
+		return false
+	}
+	return walk(from)
+}
+
+// loopHeaderOf: the header of the innermost natural loop that contains b - the nearest dominator of b
+// (b itself included) that b can reach again - or nil when b is not in a loop.
+func loopHeaderOf(b *ssa.BasicBlock) *ssa.BasicBlock {
+	for d := b; d != nil; d = d.Idom() {
+		if blockReaches(b, d) && (d == b || d.Dominates(b)) {
+			// d must be a real loop header: one of its predecessors is inside the loop
+			for _, p := range d.Preds {
+				if d.Dominates(p) {
+					return d
+				}
+			}
+		}
+	}
+	return nil
+}
+
+// loopBodyOf: the blocks of the natural loop with header h (h included).
+func loopBodyOf(h *ssa.BasicBlock) map[*ssa.BasicBlock]bool {
+	set := map[*ssa.BasicBlock]bool{h: true}
+	for _, b := range h.Parent().Blocks {
+		if b != h && h.Dominates(b) && blockReaches(b, h) {
+			set[b] = true
+		}
+	}
+	return set
 }
